@@ -1,5 +1,6 @@
 import Heathcliff.Gen.Forms
 import Heathcliff.Model.Evaluator
+import Heathcliff.Proofs.GenValid
 /-
   C06 — API variants agree: the shape of every public Evaluator method family is extracted from the Rust source on every run
   (`Heathcliff/Gen/Forms.lean`); the theorems below are about that generated table, so a `_new` / destination form that stops
@@ -40,5 +41,31 @@ theorem forms_table_size : 25 ≤ evaluatorForms.length := by decide
 /-- level walk / refusal model facts used by the check -/
 theorem upward_refused {cur tgt : Nat} (h : cur < tgt) : switchSteps cur tgt = .error .refused := by
   unfold switchSteps; simp [h]
+
+/-! ### translator tie: `Ciphertext::is_metadata_valid_for` / `is_buffer_valid` (src/valcheck.rs) generated into Gen/ValidFns.lean
+     (Proofs/GenValid.lean): `ctValid` of the hand model = generated metadata check ∧ shape/data part -/
+open HC in
+theorem gen_ctValid_split (l : Level) (ct : Ct) (s1 s0 : Bool) :
+    ctValid l ct s1 s0 = (HC.gx_ctMetaValid l ct s1 s0 && HC.gx_ctShapeOk l ct) := HC.gx_ctValid_split l ct s1 s0
+open HC in
+theorem gen_ct_is_metadata_valid_for_eq (l : Level) (ct : Ct) (s1 s0 allow : Bool) (chain first : Nat)
+    (hk : allow = true ∨ chain ≤ first) :
+    GenV.ct_is_metadata_valid_for allow true false chain first l.size l.n l.size l.n ct.polys.size
+        (decide (l.scheme = .bfv)) (decide (l.scheme = .bgv)) (decide (l.scheme = .ckks)) (!s1) s0 ct.cf l.t.value =
+      HC.gx_ctMetaValid l ct s1 s0 := HC.gx_ct_is_metadata_valid_for_eq l ct s1 s0 allow chain first hk
+open HC in
+theorem gen_ctValid_eq (l : Level) (ct : Ct) (s1 s0 allow : Bool) (chain first : Nat) (hk : allow = true ∨ chain ≤ first) :
+    ctValid l ct s1 s0 =
+      (GenV.ct_is_metadata_valid_for allow true false chain first l.size l.n l.size l.n ct.polys.size
+        (decide (l.scheme = .bfv)) (decide (l.scheme = .bgv)) (decide (l.scheme = .ckks)) (!s1) s0 ct.cf l.t.value
+       && HC.gx_ctShapeOk l ct) := HC.gx_ctValid_eq_gen l ct s1 s0 allow chain first hk
+open HC in
+theorem gen_ct_is_metadata_valid_for_refuses (allow pset missing : Bool) (chain first ls ln cc cn sz : Nat) (b1 b2 b3 sn sz0 : Bool) (cf t : Nat)
+    (h : pset = false ∨ missing = true ∨ (allow = false ∧ chain > first) ∨ cc ≠ ls ∨ cn ≠ ln) :
+    GenV.ct_is_metadata_valid_for allow pset missing chain first ls ln cc cn sz b1 b2 b3 sn sz0 cf t = false :=
+  HC.gx_ct_is_metadata_valid_for_refuses allow pset missing chain first ls ln cc cn sz b1 b2 b3 sn sz0 cf t h
+open HC in
+theorem gen_ct_is_buffer_valid_eq (dataLen cc sz n : Nat) (h1 : cc * sz < 2^64) (h : cc * sz * n < 2^64) :
+    GenV.ct_is_buffer_valid dataLen cc sz n = .ok (decide (dataLen = cc * sz * n)) := HC.gx_ct_is_buffer_valid_eq dataLen cc sz n h1 h
 
 end HC.C06
